@@ -91,6 +91,7 @@ func (store *Store) DeleteAccountMetadata(ctx context.Context, account, key stri
 			_, err := store.db.NewUpdate().
 				ModelTableExpr(store.GetPrefixedRelationName("accounts")).
 				Set("metadata = metadata - ?", key).
+				Set("updated_at = " + store.GetPrefixedRelationName("transaction_date") + "()").
 				Where("address = ?", account).
 				Where("ledger = ?", store.ledger.Name).
 				Exec(ctx)
